@@ -16,6 +16,7 @@
                     white space.
 -/
 import YashModel.Expansion.Model
+import YashModel.Fnmatch.Spec
 namespace YashModel.Expansion
 
 /-! ## Field splitting on index ranges -/
@@ -218,6 +219,53 @@ def paramFields (env : Env) (willSplit : Bool) (p : Param) (v : Option Value) : 
 def soften (fs : Fields) : Fields :=
   fs.map (·.map fun c => if c.origin = .literal then { c with origin := .softExpansion } else c)
 
+/-! ### Prefix / suffix removal (XCU 2.6.2 `#` `##` `%` `%%`, pattern notation of XCU 2.13)
+
+  The pattern characters are read by the grammar of the C04 Spec (`Fnmatch.specParse`: unquoted `?`, `*`, a
+  closed bracket expression; everything else an ordinary character) and matched by its glob language
+  (`Fnmatch.globMatch`); `Fnmatch.specTrim` removes the shortest / longest matching prefix / suffix. -/
+
+/-- the patterns for which POSIX defines the result: every bracket expression is inside the defined notation
+    (defined class names, no class as range bound, no empty symbol, no inverted range), and — for the prefix
+    forms — no bracket holds a multi-character collating element (outside the POSIX locale's repertoire;
+    there yash-fnmatch tries the alternatives in the order written) -/
+def patternInPosix (side : TrimSide) (pcs : List PatChar) : Bool :=
+  Fnmatch.astDefined (Fnmatch.specParse pcs) &&
+    (side == .suffix || Fnmatch.noMulti (Fnmatch.specParse pcs))
+
+/-- `${p#w}` … `${p%%w}` on one string: inside the defined notation the shortest / longest matching prefix /
+    suffix is removed (nothing when none matches); outside it POSIX leaves the result open and the Spec
+    records what the shell documents: the result of its own matcher (an undefined pattern matches nothing) -/
+def posixTrimString (pcs : List PatChar) (side : TrimSide) (len : TrimLen) (v : List Char) : List Char :=
+  if patternInPosix side pcs then Fnmatch.specTrim side len (Fnmatch.specParse pcs) v
+  else Fnmatch.trimApply side len pcs v
+
+/-- a trim cuts the value at a split point `i`: the part removed … -/
+def trimRemovedPart (side : TrimSide) (v : List Char) (i : Nat) : List Char :=
+  match side with
+  | .prefix => v.take i
+  | .suffix => v.drop i
+
+/-- … and the part kept -/
+def trimKeptPart (side : TrimSide) (v : List Char) (i : Nat) : List Char :=
+  match side with
+  | .prefix => v.drop i
+  | .suffix => v.take i
+
+/-- number of characters removed at split point `i` -/
+def trimRemovedLen (side : TrimSide) (v : List Char) (i : Nat) : Nat :=
+  match side with
+  | .prefix => i
+  | .suffix => v.length - i
+
+/-- no unquoted opening bracket: the pattern consists of ordinary (quoted or unquoted) characters, `?` and `*` -/
+def bracketFree (pcs : List PatChar) : Bool := pcs.all (fun pc => pc != .normal '[')
+
+/-- a scalar is trimmed; of `$@`, `$*` and arrays every element is -/
+def posixTrim (pcs : List PatChar) (side : TrimSide) (len : TrimLen) : Value → Value
+  | .scalar s => .scalar (posixTrimString pcs side len s)
+  | .array vs => .array (vs.map (posixTrimString pcs side len))
+
 /-- the vacancy reported in error messages -/
 def vacancyOf (v : Option Value) : Vacancy := (Vacancy.of v).getD .unset
 
@@ -244,7 +292,7 @@ mutual
           | (env', .error e) => (env', .error e)
           | (env', .ok pat) =>
             let pattern := toPatternChars (applyEscapes (joinBySep env' pat))
-            (env', .ok (paramFields env' willSplit p (some (trimApply pattern side len val))))
+            (env', .ok (paramFields env' willSplit p (some (posixTrim pattern side len val))))
     | .switch cond act w =>
       match posixTable act cond (PState.of v) with
       | .substituteParameter => (env, .ok (paramFields env willSplit p v))
@@ -368,7 +416,56 @@ def Word.plain : Word → Option (List Char)
     | some a, some r => some (a ++ r)
     | _, _ => none
 
-/-! ## `read` -/
+/-! ## `read`: the logical line (XCU `read`: "<backslash> shall act as an escape character … the
+    <backslash><newline> shall be removed … the terminating logical line delimiter (if any) shall be removed") -/
+
+/-- what the input consists of, read left to right -/
+inductive RItem
+  /-- an ordinary character -/
+  | plain (c : Char)
+  /-- a backslash and the character whose literal value it preserves -/
+  | escaped (c : Char)
+  /-- backslash–newline: a line continuation -/
+  | continuation
+  /-- a backslash at the very end of the input -/
+  | dangling
+  /-- the logical line delimiter (unescaped) -/
+  | delimiter
+  deriving DecidableEq, Repr
+
+/-- the WHOLE input as items (`raw` = option `-r`: a backslash is an ordinary character) -/
+def readItems (raw : Bool) (delim : Char) : List Char → List RItem
+  | [] => []
+  | c :: rest =>
+    if c == delim then .delimiter :: readItems raw delim rest
+    else if c == '\\' && !raw then
+      match rest with
+      | [] => [.dangling]
+      | d :: rest' => (if d == '\n' then .continuation else .escaped d) :: readItems raw delim rest'
+    else .plain c :: readItems raw delim rest
+
+/-- the attributed characters an item contributes to the line: an escaped character is quoted (never a
+    separator), its backslash is a quoting character (removed by quote removal); a continuation contributes
+    nothing -/
+def RItem.chars : RItem → List AttrChar
+  | .plain c => [plainChar c]
+  | .escaped c => [readQuoting '\\', readQuoted c]
+  | .continuation => []
+  | .dangling => [readQuoting '\\']
+  | .delimiter => []
+
+/-- the value an item stands for once the backslashes are removed -/
+def RItem.value : RItem → List Char
+  | .plain c => [c]
+  | .escaped c => [c]
+  | _ => []
+
+/-- the logical line: the items before the first delimiter; and whether there is a delimiter -/
+def specReadInput (raw : Bool) (delim : Char) (input : List Char) : List AttrChar × Bool :=
+  let items := readItems raw delim input
+  ((items.takeWhile (· ≠ .delimiter)).flatMap RItem.chars, items.contains .delimiter)
+
+/-! ## `read`: assignment -/
 
 /-- the text from `start` to the end without trailing IFS white space -/
 def restTrimmed (ifs : Ifs) (text : List AttrChar) (start : Nat) : List AttrChar :=
